@@ -87,6 +87,68 @@ theorem C35_replace_higher_submit (s : Sys) (t : Tx) (lag : Nat) (c : Code) (old
 /-- without the bound the uint64 product wraps and a *lower* price replaces (not reachable through `TransactionFromEIP155`) -/
 theorem C35_replace_wrap_witness : replaces 5 182641030432767838 = true ∧ ¬ 5 > 182641030432767838 := by decide
 
+/-! ### The pool's own consistency (all histories) -/
+
+/-- **Two-way consistency of `validTxMap` and `eipTxPool`.** For every history whose transactions are collision free and whose
+EIP-155 nonces stay below 2^32-1 (`NonceBound`: `tx.Nonce+1` is computed in uint32 in `cleanCompletedEipTxPool`):
+every pooled EIP-155 transaction sits in its sender's list at its nonce; every listed transaction is pooled under its hash;
+the lists are strictly nonce-sorted with `key = tx.Nonce`, `payer = sender`; senders are distinct keys; a sender with a
+non-empty list has a `userLatestEiptxHeight` record. -/
+theorem C35_pool_consistent (acct0 : List (Nat × Nat)) (maxBlocks : Nat) (ops : List Op)
+    (hcol : NoCollision (ops.flatMap Op.txs)) (hb : NonceBound (ops.flatMap Op.txs)) (ho : OrdersOK ops) :
+    let p := ((Sys.new acct0 maxBlocks).run ops).pool
+    (∀ h e, alookup p.valid h = some e → e.tx.eip = true →
+      ∃ l, alookup p.eip e.tx.payer = some l ∧ alookup l e.tx.nonce = some e.tx) ∧
+    (∀ a l n t, alookup p.eip a = some l → alookup l n = some t → ∃ e, alookup p.valid t.hash = some e ∧ e.tx = t) ∧
+    (∀ a l, alookup p.eip a = some l → Sorted l ∧ ∀ n t, alookup l n = some t → t.nonce = n ∧ t.payer = a) ∧
+    (p.eip.map (·.1)).Nodup ∧
+    (∀ a l, alookup p.eip a = some l → l ≠ [] → (alookup p.user a).isSome = true) := by
+  intro p
+  have h := (reachable_inv2 acct0 maxBlocks ops hcol hb ho).pool2
+  exact ⟨h.fwd, h.bwd, h.slots, h.keys, h.usr⟩
+
+/-- **No nil dereference.** In every reachable state `GetTxPool` (any height, any count, any map order), the proposer and
+`RemoveTxsBelowGasPrice` return: `tp.eipTxPool[tx.Payer].Remove(…)` always finds the sender's list (the model outcome
+`none` = PANIC is unreachable), and `NextNonce` never dereferences a missing `userLatestEiptxHeight` record. -/
+theorem C35_no_panic (acct0 : List (Nat × Nat)) (maxBlocks : Nat) (ops : List Op)
+    (hcol : NoCollision (ops.flatMap Op.txs)) (hb : NonceBound (ops.flatMap Op.txs)) (ho : OrdersOK ops)
+    (ord : Order) (hord : ord.IsPerm) (byCount : Bool) (h maxTx gasPrice addr : Nat) :
+    let s := (Sys.new acct0 maxBlocks).run ops
+    (getTxPool s.pool ord byCount h maxTx).isSome = true ∧ (s.propose ord byCount h maxTx).isSome = true ∧
+    (removeBelow s.pool gasPrice).isSome = true ∧ (nextNonce s.pool addr).isSome = true := by
+  exact no_panic_of_inv (reachable_inv2 acct0 maxBlocks ops hcol hb ho) hcol ord hord byCount h maxTx gasPrice addr
+
+/-- **Raw heading.** Before expiry and truncation, the candidate list of `GetTxPool` restricted to an EVM sender is exactly
+the heading of that sender's list: consecutive nonces starting at the lowest pooled nonce of the sender (which need not be
+the account nonce — that is what the validator filter is for). -/
+theorem C35_raw_heading (acct0 : List (Nat × Nat)) (maxBlocks : Nat) (ops : List Op)
+    (hcol : NoCollision (ops.flatMap Op.txs)) (hb : NonceBound (ops.flatMap Op.txs)) (ho : OrdersOK ops)
+    (ord : Order) (hord : ord.IsPerm) (s : Nat) :
+    let p := ((Sys.new acct0 maxBlocks).run ops).pool
+    proj s ((candidates p ord).map (·.tx)) =
+      match alookup p.eip s with
+      | some l => List.range' l.firstKey l.heading.length
+      | none => [] := by
+  intro p
+  have hi := reachable_inv2 acct0 maxBlocks ops hcol hb ho
+  rw [proj_eq, candidates_proj hi.base.pool hi.pool2 ord hord s]
+  cases hl : alookup p.eip s with
+  | none => rfl
+  | some l =>
+    simp only
+    apply heading_nonces
+    intro x hx
+    obtain ⟨k, t⟩ := x
+    have := (sorted_alookup_iff (hi.pool2.slots s l hl).1 k t).mpr hx
+    exact ((hi.pool2.slots s l hl).2 k t this).1
+
+/-- `NonceBound` is needed: with nonce 2^32-1 the uint32 addition `tx.Nonce+1` wraps, `Forward(0)` pops nothing, and the
+committed transaction stays in the sender's list although it left `validTxMap` -/
+theorem C35_nonce_wrap_witness :
+    let t : Tx := ⟨9, true, 0, 4294967295, 1000⟩
+    let s := (Sys.new [(0, 4294967295)] 20).run [.submit t 0, .commit [t], .cleanBlk 1]
+    s.pool.valid = [] ∧ s.pool.eip = [(0, [(4294967295, t)])] := by decide
+
 /-! ### The raw pool output is not enough -/
 
 /-- the statement the pool alone would have to satisfy: the raw `GetTxPool` list of every history already has, per
@@ -123,6 +185,8 @@ def demoOps : List Op :=
 
 example : NoCollision (demoOps.flatMap Op.txs) := by unfold NoCollision; decide
 example : Order.id.IsPerm := Order.id_isPerm
+example : NonceBound (demoOps.flatMap Op.txs) := by unfold NonceBound two32; decide
+example : OrdersOK demoOps := by intro op hop; simp [demoOps] at hop; rcases hop with rfl | rfl | rfl | rfl | rfl | rfl | rfl | rfl <;> (intro ord bc h m hh; rcases hh with hh | hh <;> cases hh)
 /-- 1010 does not replace 1000, 1011 does; after the commit of nonce 0 (the pool was not told) the proposal is nonce 1 and
 the other-type transaction: the committed transaction is filtered by the window -/
 example : (((Sys.new [] 20).run demoOps).propose Order.id true 1 60000).map (fun r => (r.1, r.2.1)) = some (0, [w1, o0]) := by decide
